@@ -34,5 +34,11 @@ Extraction "../ocaml/model.ml"
   Faults.under_fault Faults.current_handling Faults.not_success
   CodeCheck.code_read_results CodeCheck.model_read_results CodeCheck.code_finish_test CodeCheck.model_finish_test
   CodeCheck.code_finish_suite CodeCheck.model_finish_suite
+  CodeCheck.code_double_percent CodeCheck.model_double_percent CodeCheck.code_xml_escaped CodeCheck.model_xml_escaped
+  CodeCheck.code_names CodeCheck.model_names CodeCheck.code_matches CodeCheck.model_matches
+  CodeCheck.code_find CodeCheck.model_find CodeCheck.code_remove_first CodeCheck.model_remove_first
+  CodeCheck.code_have_always CodeCheck.model_have_always CodeCheck.code_have_never CodeCheck.model_have_never
+  CodeCheck.code_remove_never CodeCheck.model_remove_never CodeCheck.code_after_use CodeCheck.model_after_use
+  CodeCheck.code_succ CodeCheck.model_succ
   Facts.verdict_suite Facts.verdict_single Facts.rk_text Facts.rk_cute Facts.rk_xml
   Facts.rk_libxml Facts.rk_cdash Facts.msg_codes.
